@@ -78,7 +78,9 @@ fn name_pool() -> Vec<String> {
         }
         i += 1;
     }
-    vec![base, coll[0].clone(), coll[1].clone(), "dir/FILE.TXT".to_string(), "World\\Maps\\Azeroth\\Some\\Long\\Path\\Azeroth_32_48.adt".to_string(), "(user)".to_string(), "other.dat".to_string()]
+    vec![base, coll[0].clone(), coll[1].clone(), "dir/FILE.TXT".to_string(), "World\\Maps\\Azeroth\\Some\\Long\\Path\\Azeroth_32_48.adt".to_string(), "(user)".to_string(), "other.dat".to_string(),
+         // a name that is a substring of another name of the pool (listfile maintenance must compare whole lines)
+         "File.txt".to_string()]
 }
 
 const SEED_FILES: &[(&str, usize, &str)] = &[("seed\\multi.bin", 9000, "zlib"), ("seed\\enc.bin", 300, "enc"), ("seed\\small.txt", 11, "none")];
@@ -525,7 +527,7 @@ fn main() {
         v
     };
     // names used for the exhaustive part: base, one collider, the case/slash variant, and a seed file name
-    let mut ex_names: Vec<String> = vec![names[0].clone(), names[1].clone(), names[3].clone(), "seed\\enc.bin".to_string(), "seed\\multi.bin".to_string()];
+    let mut ex_names: Vec<String> = vec![names[0].clone(), names[1].clone(), names[3].clone(), "seed\\enc.bin".to_string(), "seed\\multi.bin".to_string(), names[7].clone()];
     let alpha = alphabet(ex_names.len(), &[0, 1, 3, 4], &[1, 3]);
     run.extra("alphabet_size", json!(alpha.len()));
     // length-1 histories on all 16 starting archives
